@@ -222,7 +222,8 @@ def lens_iters(run, F):
             if leaf == 'self.len()':
                 # the container's own length, not this very method: the receiver type differs
                 # from the implementing type or the call is an inherent method
-                calls = [x for x in walk(fn.hir) if x.get('k') == 'MethodCall' and x['method'] == 'len']
+                calls = [x for x in walk(fn.hir) if (x.get('k') == 'MethodCall' and x['method'] == 'len') or
+                         (x.get('k') == 'Call' and strip_generics(x.get('callee') or '').split('::')[-1] == 'len')]
                 ok = ok and len(calls) == 1 and not strip_generics(calls[0].get('callee', '')).endswith('GetLen::len') \
                     or ok and len(calls) == 1 and head_of((calls[0].get('targs') or ['?'])[0]) != h
             run.ob('API.len', fn, key, ok, fn.loc(), 'body `%s`' % leaf)
